@@ -9,20 +9,20 @@ PART = {
                  "Carquet.Properties.C08.C08_plain_byte_array_slices_in_input"],
     components=["c04"],
     shards={"c04": 14},
-    fidelity={"reader bounds arithmetic (open paths, page loads)": "in progress (reader component); explored by mutation until then"},
+    fidelity={"reader bounds arithmetic (open paths, page loads)": "Impl.Reader with access reporting (reader part)"},
     rule="c04: 6 (thorough 40) base files over 5 codecs; per base 60 (400) structure-aware mutations: footer fields through "
          "carquet's own thrift structs (counts, offsets, sizes, types, codecs, child counts, repetition), page-header fields "
          "(type, sizes, crc, num_values, encoding) re-serialised in place, payload flips, truncation, garbage, random bytes; "
          "each mutated file x {fread, mmap, buffer} is exercised in a forked child by a fixed API sequence (metadata queries, "
          "out-of-range indices, read_batch sizes 0/1/3/7/1000, skip, has_next/remaining, batch reader) with exact-size caller "
-         "buffers sized from the public schema accessors, 10 s alarm, ASan + LeakSanitizer at exit. distinct = distinct (mutation, mode)",
+         "buffers sized from the public schema accessors, 10 s CPU-time alarm, ASan + LeakSanitizer at exit. distinct = distinct (mutation, mode)",
     assumptions=["heap discipline (double free, leak) and real stack use are observed by sanitizers, not proved"],
-    trusted_base=["ASan/LSan verdict of the forked child; 10 s alarm as hang detector"],
+    trusted_base=["ASan/LSan verdict of the forked child; 10 s CPU-time timer (ITIMER_PROF) as hang detector"],
     text="(partial) proved: schema traversal does at most 2*num_elements steps for ANY element list (the statement that was "
          "false before fix fdbc062), decompressors and PLAIN decoders never read outside their input / write outside the "
          "declared capacity (fail-stop models). Explored on the real code: structure-aware mutations of valid files in all "
          "three I/O modes under ASan/LSan with hang detection. The access-reporting model of the open paths and page loads "
-         "(C04_accesses_in_bounds) is in progress (reader component).",
+         "(C04_accesses_in_bounds, C04_steps_linear) is the reader part.",
     level_note="Lean kernel for the modelled parts; sanitizers for heap discipline",
     technique="Lean 4 proofs of bounds/termination on component models + structure-aware mutation under sanitizers (fault exploration inside the tie)",
   ),
